@@ -842,15 +842,25 @@ func (rd *renderer) blockAt(b *Block, L int) {
 					if m.Description != nil {
 						rd.description(L+2, label+"/description", m.Description, 2)
 					}
-					if m.Params != nil {
-						b2 := rd.directive(L+2, "Params", nil, "")
-						rd.bodyLines(L+3, SchemaLines(m.Params, true))
-						rd.span(label+"/params", "Params", b2, rd.sb.Len(), 2)
+					params := func() {
+						if m.Params != nil {
+							b2 := rd.directive(L+2, "Params", nil, "")
+							rd.bodyLines(L+3, SchemaLines(m.Params, true))
+							rd.span(label+"/params", "Params", b2, rd.sb.Len(), 2)
+						}
+					}
+					// the order of Params and Result is free: half of the methods (told by their names, no random draw)
+					// write the Result first
+					if len(m.Name)%2 == 0 {
+						params()
 					}
 					if m.Result != nil {
 						b2 := rd.directive(L+2, "Result", nil, "")
 						rd.bodyLines(L+3, SchemaLines(m.Result, true))
 						rd.span(label+"/result", "Result", b2, rd.sb.Len(), 2)
+					}
+					if len(m.Name)%2 != 0 {
+						params()
 					}
 				})
 				rd.finish(mi)
